@@ -341,3 +341,27 @@ Definition run_response (avail : list bytes)
   rres_trace (read_response_body avail (mkH ch (mk_cl code v) ce) (mkS data caps)).
 
 Definition run_mk_chunks (c : N * bytes) : bytes := mk_chunks (fst c) (snd c).
+
+(* all framing cases of one run in one evaluation *)
+Inductive fcase :=
+| FMk (n : N) (b : bytes)
+| FReq (c : (bool * N * N) * option bytes * bytes * list N)
+| FResp (c : (bool * N * N) * option bytes * bytes * list N).
+
+Inductive fres :=
+| FBytes (b : bytes)
+| FTrace (t : N * (option bytes * N)).
+
+Definition run_framing (hmax : nat) (avail : list bytes) (c : fcase) : fres :=
+  match c with
+  | FMk n b => FBytes (mk_chunks n b)
+  | FReq c => FTrace (run_request hmax avail c)
+  | FResp c => FTrace (run_response avail c)
+  end.
+
+Definition fres_eqb (a b : fres) : bool :=
+  match a, b with
+  | FBytes x, FBytes y => bytes_eqb x y
+  | FTrace x, FTrace y => trace_eqb x y
+  | _, _ => false
+  end.
